@@ -17,6 +17,7 @@ type AssumeCase struct {
 	Base   Prob    `json:"base"`
 	Rounds [][]int `json:"rounds"` // each round: the assumed literals
 	Dev    int     `json:"dev"`
+	CP     bool    `json:"cp,omitempty"` // solver option CuttingPlanes on (signatures get the prefix cp/)
 }
 
 type c10 struct{}
@@ -24,7 +25,7 @@ type c10 struct{}
 func (c10) ID() string    { return "C10" }
 func (c10) Level() string { return "exploration" }
 func (c10) Rule() string {
-	return "cases = base CNF problems (T2 with <=2 clauses, S3 with <=3 clauses, D3-style single clauses with units, a few conflict-rich seeds, and the 'chain' family (every 3..5-clause subset of a 14-clause menu over 5 variables in which assumptions propagate through implication chains before a conflict); with and without unit clauses / parse-time facts, and parse-time Unsat) x every sequence of <=3 rounds (quick; 1-2 rounds on larger bases), each round = Assume(list) with every list of <=2 literals (empty, repeated literal, contradictory pair) followed by Solve unless Assume already answered Unsat; x heuristic choice list (<=1 deviation). Oracle per round: truth table of base AND this round's assumptions only. Non-trivial = at least one round had a non-empty assumption list and the verdicts of the rounds are not all equal, or some round met a conflict."
+	return "cases = base CNF problems (T2 with <=2 clauses, S3 with <=3 clauses, D3-style single clauses with units, a few conflict-rich seeds, and the 'chain' family (every 3..5-clause subset of a 14-clause menu over 5 variables in which assumptions propagate through implication chains before a conflict); with and without unit clauses / parse-time facts, and parse-time Unsat) x every sequence of <=3 rounds (quick; 1-2 rounds on larger bases), each round = Assume(list) with every list of <=2 literals (empty, repeated literal, contradictory pair) followed by Solve unless Assume already answered Unsat; x heuristic choice list (<=1 deviation). Family CP: the same oracle with the solver option CuttingPlanes on, on three bases over 4..5 variables with every sequence of 2 rounds of <=1 assumed literal (failures reported under cp/). Oracle per round: truth table of base AND this round's assumptions only. Non-trivial = at least one round had a non-empty assumption list and the verdicts of the rounds are not all equal, or some round met a conflict."
 }
 func (c10) Assumptions() []string {
 	return []string{"truth-table reference is correct", "assumed literals mention declared variables only"}
@@ -116,6 +117,25 @@ func (c10) Enumerate(tier string, seed int64, yield func(string, core.Case) bool
 			}
 		}
 	}
+	// CP: the solver option CuttingPlanes combined with assumptions, on three small bases (a CNF, a clause/PB mix, a
+	// clause/cardinality mix over 4..5 variables): every sequence of 2 rounds with lists of <=1 literal
+	{
+		cpBases := []Prob{
+			cnfProb("slicenb", [][]int{{2, -3}, {3, -1}, {3, 1}, {-1, -2}, {-4, 1, -3}}, 4, 4),
+			{Front: "pb", N: 5, Cs: []Con{{T: "cl", L: []int{1, 2}}, {T: "ge", L: []int{4, -5, -2, 3, 1}, W: []int{5, 1, 1, 1, 1}, K: 7}}},
+			{Front: "pb", N: 5, Cs: []Con{{T: "atl", L: []int{-3, -4, -5}, K: 2}, {T: "cl", L: []int{4, 1}}, {T: "cl", L: []int{1, 2, 3}}}},
+		}
+		for _, b := range cpBases {
+			ls := litSeqs(b.N, 0, 1)
+			for _, a := range ls {
+				for _, bb := range ls {
+					if !yield("CP", AssumeCase{Base: b, Rounds: [][]int{a, bb}, Dev: 0, CP: true}) {
+						return
+					}
+				}
+			}
+		}
+	}
 	for _, s := range seedsM(seed, tier) {
 		n := maxVarCNF(s.F)
 		if n > 12 {
@@ -148,6 +168,9 @@ type roundsRun struct {
 	lines    []string // certificate lines (when certified)
 }
 
+// runRoundsCP: cutting planes for the next runRounds call (set and cleared by Exec)
+var runRoundsCP bool
+
 func runRounds(base Prob, rounds [][]int, certified bool) (rr roundsRun) {
 	n := base.Declared()
 	baseRef := base.Ref()
@@ -165,6 +188,7 @@ func runRounds(base Prob, rounds [][]int, certified bool) (rr roundsRun) {
 		rr.fails = []core.Failure{{Sig: "new-panic", Detail: pn}}
 		return
 	}
+	s.CuttingPlanes = runRoundsCP
 	var ch chan string
 	var drained chan struct{}
 	if certified {
@@ -244,6 +268,17 @@ func (c10) Exec(cc core.Case, r *core.Rec) []core.Failure {
 	n := c.Base.Declared()
 	baseModels := tt.Models(n, c.Base.Ref())
 	return exploreProb(r, c.Dev, c, "assumption-rounds", func(choices []int) []core.Failure {
+		if c.CP {
+			// the option CuttingPlanes combined with assumptions: judged by the same oracle, reported under cp/
+			runRoundsCP = true
+			rr := runRounds(c.Base, c.Rounds, false)
+			runRoundsCP = false
+			for i := range rr.fails {
+				rr.fails[i].Sig = "cp/" + rr.fails[i].Sig
+			}
+			r.Outcome("cp/" + rr.verdicts)
+			return rr.fails
+		}
 		rr := runRounds(c.Base, c.Rounds, false)
 		if len(rr.fails) > 0 {
 			return rr.fails
